@@ -225,7 +225,9 @@ pub fn render_sourcemap(paths: &[String], sourcemap_path: &str, root_name: &str)
 }
 
 pub const INPUT_DIRS: &[&str] = &["src", "in", "proj/src", "my src", "a.b"];
-pub const SUB_DIRS: &[&str] = &["", "", "sub", "sub/deep", "other dir", "dots.v1.2", "ünï"];
+pub const SUB_DIRS: &[&str] = &[
+    "", "", "sub", "sub/deep", "other dir", "dots.v1.2", "ünï", "..hidden", "sub/...",
+];
 pub const STEMS: &[&str] = &[
     "a", "b", "c", "main", "init", "mod one", "x.y", "été", "util", "index",
 ];
@@ -819,7 +821,22 @@ pub fn gen_invocation(
     } else {
         Some((*rng.pick(OUTPUT_DIRS)).to_owned())
     };
-    if let Some(output) = &output {
+    // other spellings of the same output path
+    let output: Option<String> = output.map(|o| match rng.below(10) {
+        0 => format!("./{}", o),
+        1 if !has_extension(&o) => format!("{}/", o),
+        2 => {
+            // a detour through the (existing) first directory of the input
+            let first = project.input.split('/').next().unwrap_or("").to_owned();
+            if first.is_empty() || first.contains('.') || project.input_is_file && !project.input.contains('/') {
+                o
+            } else {
+                format!("{}/../{}", first, o)
+            }
+        }
+        _ => o,
+    });
+    if let Some(output) = &output.as_ref().map(|o| normalize(o)) {
         let is_existing_dir_case = output == "existing-dir" || output == "existing.dir";
         if is_existing_dir_case && backend != Backend::Memory {
             extra.push(FsEntry {
@@ -859,6 +876,8 @@ pub fn gen_invocation(
     let input = match rng.below(12) {
         0 | 1 => format!("./{}", project.input),
         2 if !project.input_is_file => format!("{}/", project.input),
+        4 if !project.input_is_file => format!("{}/.", project.input),
+        5 if !project.input_is_file => format!("./{}/./", project.input),
         3 => {
             let first = project.input.split('/').next().unwrap_or("").to_owned();
             if first.is_empty() || project.input_is_file {
